@@ -3,7 +3,8 @@ from hypothesis import strategies as st
 
 from engine.core import Outcome
 from engine import probe
-from models import layout, bidi
+from models import layout, bidi, vim
+from . import viutil
 
 ID = "C17"
 LEVEL = "exploration"
@@ -12,15 +13,18 @@ RULE = ("(a) exhaustive: uc_wid / uc_isbell / uc_iscomb for every code point U+0
         "zero-width, placeholder and right-to-left characters; with and without terminator) x order in {0,1,2} x td in -2..2 x lim in "
         "{0,n-1,n,256}: ren_position must tile [0,total) without gap in visual order, be the logical order when no RTL/mark character is "
         "present, ren_off(ren_pos(i)) = i, ren_next = neighbouring start column (-1 at the ends / on the terminator), ren_cursor, ren_noeol, "
-        "ren_wid.  Non-trivial = line with a tab not at column 0 mod 8 or a wide / placeholder / RTL character; distinct by SHA-1 of the case")
-ASSUMPTIONS = ["the width tables of uc.c and the placeholder table of conf.h are configuration data: the oracle reads them from the tree under test",
+        "ren_wid; (c) the same through the real editor: 1-5 lines with Arabic/Persian letters, diacritics, tabs, wide characters x td x order x "
+        "lim x 1-8 motions from h l N| j k $ 0 ^ space backspace: the cursor (marker character) must be where the layout model puts it.  Non-trivial = line with a tab not at column 0 mod 8 or a wide / placeholder / RTL character; distinct by SHA-1 of the case")
+ASSUMPTIONS = ["(c): h / l move towards the start / end of the line in its base direction (so to the right / left on the screen in a right-to-left line), as vi.c "
+               "multiplies by dir_context; lines that need the configured direction-mark patterns are not generated there",
+               "the width tables of uc.c and the placeholder table of conf.h are configuration data: the oracle reads them from the tree under test",
                "every code point for which uc_isbell() holds (which includes the zero-width ones) is drawn as a one-cell placeholder"]
 
 CH = ["a", "b", " ", "\t", "\t", "é", "日", "本", "😀", "́", "ل", "ب", "ا", "‌", "‍", "َ", "ّ", "x", "1", ".", "(", "\x01", "\x7f", "ﷲ", "ـ", "$", "\\"]
 
 
 def prepare(build, tier):
-    return {"psrv": probe.build_psrv(build), "src": build.src}
+    return {"psrv": probe.build_psrv(build), "src": build.src, "vi": build.vi_plain()}
 
 
 def budget(tier):
@@ -36,8 +40,28 @@ def case(draw):
             "lim": draw(st.sampled_from([0, max(0, n - 1), n, 256, 256]))}
 
 
+# ---- the same laws seen through the real editor: cursor after h / l / N| / j / k / $ / 0 on lines with right-to-left text
+VCH = ["a", "b", "Z", "1", " ", " ", ".", ",", "-", "(", ")", "\t", "é", "日", "😀", "ل", "ب", "ا", "م", "و", "ی", "ک", "َ", "ّ", "‌", "ـ", "؟"]
+vline = st.lists(st.sampled_from(VCH), max_size=14).map("".join)
+
+
+@st.composite
+def vicase(draw):
+    lines = draw(st.lists(vline, min_size=1, max_size=5))
+    steps = []
+    for _ in range(draw(st.integers(1, 8))):
+        k = draw(st.sampled_from(["h", "l", "h", "l", "|", "|", "j", "k", "$", "0", "^", " ", "\x7f"]))
+        cnt = draw(st.integers(1, 30)) if k == "|" else draw(st.sampled_from([0, 0, 0, 1, 2, 3, 7]))
+        if k == "0":
+            cnt = 0
+        steps.append([k, cnt, None])
+    return {"kind": "vi", "lines": lines, "row": draw(st.integers(0, 4)), "off": draw(st.integers(0, 14)), "steps": steps,
+            "td": draw(st.sampled_from([0, 0, 1, -1, 2, -2])), "order": draw(st.sampled_from([1, 1, 1, 2, 0])),
+            "lim": draw(st.sampled_from([256, 256, 256, 8, 0]))}
+
+
 def strategy(tier):
-    return case()
+    return st.one_of(case(), case(), case(), vicase())
 
 
 _tabs = {}
@@ -178,10 +202,51 @@ def extra(env, tier, seed):
              "samples": ["U+0009", "U+0301", "U+65E5", "U+200C", "U+1F600"], "violations": viol}]
 
 
+def run_vicase(env, c):
+    t = tables(env)
+    v = vim.Vi(c["lines"], 24, t)
+    v.td, v.order, v.lim = c["td"], c["order"], c["lim"]
+    keys = ":se td=%d\n:se order=%d\n:se lim=%d\n" % (c["td"], c["order"], c["lim"])
+    row = min(c["row"], len(c["lines"]) - 1)
+    rtl = reord = False
+    try:
+        v.move("G", row + 1)
+        v.move("0")
+        keys += "%dG0" % (row + 1)
+        if c["off"]:
+            v.move(" ", c["off"])
+            keys += "%d " % c["off"]
+        for key, cnt, _ in c["steps"]:
+            v.move(key, cnt, None)
+            keys += (str(cnt) if cnt else "") + key
+            if v.context(v.row) < 0:
+                rtl = True
+            if v.visual(v.row) != list(range(v.slen(v.row))):
+                reord = True
+    except vim.Unmodelled:
+        return Outcome(True, False, ["vi_unmodelled"])
+    nt = reord and any(k in "hl|" for k, _, _ in c["steps"])
+    cl = ["vi", "vi_rtl_context" if rtl else "vi_ltr_context", "vi_reordered" if reord else "vi_logical"]
+    r, out, cur, _ = viutil.run_vi(env, c["lines"], keys, rows=24, cols=100, want_stats=False)
+    if r.timeout:
+        return Outcome(True, False, cl + ["timeout"], inconclusive=True)
+    if r.crashed():
+        return Outcome(False, nt, cl, detail={"why": "editor crashed", "sig": r.signature(), "keys": keys})
+    if out is None or cur is None:
+        return Outcome(False, nt, cl, detail={"why": "no output / marker", "keys": keys})
+    if out != c["lines"]:
+        return Outcome(False, nt, cl, detail={"why": "motions changed the text", "keys": keys, "got": out})
+    if cur != (v.row, v.off):
+        return Outcome(False, nt, cl, detail={"why": "cursor at %r, the layout model says %r" % (cur, (v.row, v.off)), "keys": keys, "case": c})
+    return Outcome(True, nt, cl)
+
+
 _rc = run_case
 
 
 def run_case(env, c):  # noqa: F811
+    if c.get("kind") == "vi":
+        return run_vicase(env, c)
     if c.get("kind") == "cp":
         p = probe.get(env)
         t = tables(env)
